@@ -8,6 +8,7 @@ import dets
 import gen
 from common import Outcome, f2h, np, rng_for, run_driver
 
+RULE_ADDENDA = ('NaN / +-inf on every real-valued grid; num_bins / window_size of every constructor; every default constructor operated; every public package importable first')
 LEVEL = "proof"
 EXPLANATION = ("Theorems (Lean): each validation function accepts exactly its stated domain and reports the stated error kind (decision tables for all 18 constructors); "
                "operability lemmas (queues never fail for positive capacities, ADWIN bookkeeping never underflows, ...). This run evaluates a boundary grid per parameter "
